@@ -19,6 +19,12 @@ use serde_json::{Value, json};
 
 pub const VERIF_ROOT: &str = "/verif";
 
+/// Where evidence and replay files go: /verif, unless a scratch run (sensitivity sweep against a
+/// scratch copy of the repository) redirects its output with VERIF_OUT_ROOT.
+fn out_root() -> PathBuf {
+    std::env::var_os("VERIF_OUT_ROOT").map(PathBuf::from).unwrap_or_else(|| PathBuf::from(VERIF_ROOT))
+}
+
 #[derive(Clone, Copy, Debug, PartialEq, Eq)]
 pub enum Tier {
     Quick,
@@ -621,7 +627,7 @@ fn write_replay<P: Property>(prop: &P, args: &RunArgs, case: &P::Case, v: &Viola
 }
 
 pub fn write_replay_raw<P: Property>(prop: &P, tier: &str, seed: u64, case: &P::Case, v: &Violation) -> PathBuf {
-    let dir = Path::new(VERIF_ROOT).join("replays");
+    let dir = out_root().join("replays");
     let _ = std::fs::create_dir_all(&dir);
     let path = dir.join(format!("{}-{:016x}.json", prop.id(), fingerprint(case)));
     let file = ReplayFile {
@@ -647,7 +653,7 @@ fn write_evidence<P: Property>(
     t0: Instant,
     violations: u32,
 ) {
-    let dir = Path::new(VERIF_ROOT).join("evidence");
+    let dir = out_root().join("evidence");
     let _ = std::fs::create_dir_all(&dir);
     let labels: serde_json::Map<String, Value> =
         stats.labels.iter().map(|(k, v)| (k.clone(), json!(v))).collect();
